@@ -152,7 +152,7 @@ alloc_step!(c08_alloc_step_o0, 0, 16, 16, 11);
 // @bounds as c08_alloc_step_o4 with refcount_order 6
 // @funcs Qcow2Dev::try_alloc_from_rb_slice (whole body) RefBlock::get_free_range RefBlock::get_tail_free_range RefBlock::alloc_range
 // @stub alloc::fmt::format -> String::new()
-alloc_step!(c08_alloc_step_o6, 6, 16, 16, 10);
+alloc_step!(c08_alloc_step_o6, 6, 16, 16, 7);
 
 // @harness c08_alloc_step_o2
 // @props C08 C03 C18
@@ -290,7 +290,7 @@ free_step!(c08_free_step_o1, 1, 16, 16, 4);
 // @bounds as c08_free_step_o4 with refcount_order 6
 // @funcs Qcow2Dev::free_clusters (whole body) RefBlock::decrement
 // @stub alloc::fmt::format -> String::new()
-free_step!(c08_free_step_o6, 6, 16, 16, 10);
+free_step!(c08_free_step_o6, 6, 16, 16, 4);
 
 // @harness c08_alloc_step_o4_allcb
 // @props C08 C03 C18
